@@ -38,6 +38,7 @@ import (
 	"os"
 	"os/exec"
 	"path/filepath"
+	"regexp"
 	"sort"
 	"strings"
 )
@@ -107,8 +108,14 @@ func isTarget(path string) bool {
 	return false
 }
 
+// buildTags: extra build tags for the file selection (empty = the production file set).
+var buildTags string
+
 func load(repo, gobin string) (*loader, error) {
 	args := []string{"list", "-deps", "-json=ImportPath,Dir,GoFiles,ImportMap,Standard"}
+	if buildTags != "" {
+		args = append(args, "-tags", buildTags)
+	}
 	for _, t := range targetPkgs {
 		args = append(args, "./"+t)
 	}
@@ -217,6 +224,8 @@ type site struct {
 	Locks                     []lockRef
 	SameRecv                  bool
 	Pre                       string // PreNone | PreCtor | PreFresh | PreLocal
+	Conds                     []string
+	Note                      string // method name of a Use, "=true"/"=false" of a constant write
 	Ord                       int
 	Dbg                       string
 	File                      string
@@ -238,12 +247,62 @@ type heldLock struct {
 
 type state struct {
 	held []heldLock
+	// conds: canonical strings of conditions known to hold on every path to this point:
+	// path conditions of enclosing ifs / early exits ("$.f", "!$.f", "$.fsm.GetState() == X"), dropped at
+	// every lock operation and at assignments to what they mention; and history facts "set:$.f"
+	// (this goroutine has executed `$.f = true` earlier), which survive lock operations.
+	conds []string
 }
 
 func (s *state) clone() *state {
-	c := &state{held: make([]heldLock, len(s.held))}
+	c := &state{held: make([]heldLock, len(s.held)), conds: append([]string{}, s.conds...)}
 	copy(c.held, s.held)
 	return c
+}
+
+func (s *state) addConds(cs []string) {
+	for _, c := range cs {
+		if c != "" && !hasStr(s.conds, c) {
+			s.conds = append(s.conds, c)
+		}
+	}
+}
+
+// dropConds removes path conditions (keepSet: history facts survive); if mention != "" only those mentioning it.
+func (s *state) dropConds(mention string) {
+	var out []string
+	for _, c := range s.conds {
+		isSet := strings.HasPrefix(c, "set:")
+		if mention == "" {
+			if isSet {
+				out = append(out, c)
+			}
+			continue
+		}
+		if isSet || !strings.Contains(c, mention) {
+			out = append(out, c)
+		}
+	}
+	s.conds = out
+}
+
+func (s *state) setFacts() []string {
+	var out []string
+	for _, c := range s.conds {
+		if strings.HasPrefix(c, "set:") {
+			out = append(out, c)
+		}
+	}
+	return out
+}
+
+func hasStr(l []string, x string) bool {
+	for _, y := range l {
+		if y == x {
+			return true
+		}
+	}
+	return false
 }
 
 func (s *state) add(h heldLock) {
@@ -287,6 +346,11 @@ func intersect(a, b *state) *state {
 			}
 		}
 	}
+	for _, c := range a.conds {
+		if hasStr(b.conds, c) {
+			out.conds = append(out.conds, c)
+		}
+	}
 	return out
 }
 
@@ -296,6 +360,14 @@ func sameState(a, b *state) bool {
 	}
 	for i := range a.held {
 		if a.held[i] != b.held[i] {
+			return false
+		}
+	}
+	if len(a.conds) != len(b.conds) {
+		return false
+	}
+	for i := range a.conds {
+		if a.conds[i] != b.conds[i] {
 			return false
 		}
 	}
@@ -332,6 +404,7 @@ type analyzer struct {
 	sites    []site
 	opts     []optApply
 	repo     string
+	lhsNote  string
 }
 
 func (a *analyzer) pos(p token.Pos) (string, int) {
@@ -393,6 +466,14 @@ func typeCat(t types.Type) string {
 
 func isSyncValue(t types.Type) bool { return typeCat(t) == "TSync" }
 
+func isWaitGroup(t types.Type) bool {
+	if _, isPtr := t.(*types.Pointer); isPtr {
+		return false
+	}
+	n := namedOf(t)
+	return n != nil && n.Obj().Pkg() != nil && n.Obj().Pkg().Path() == "sync" && n.Obj().Name() == "WaitGroup"
+}
+
 func isMutexType(t types.Type) bool {
 	n := namedOf(t)
 	if n == nil || n.Obj().Pkg() == nil || n.Obj().Pkg().Path() != "sync" {
@@ -430,6 +511,10 @@ func (a *analyzer) collectDecls(pkg *types.Package, files []*ast.File, info *typ
 			a.fieldOf[f] = [2]string{sn, f.Name()}
 			a.fields = append(a.fields, fieldDecl{sn, f.Name(), typeCat(f.Type()),
 				types.TypeString(f.Type(), func(p *types.Package) string { return p.Name() })})
+			if isWaitGroup(f.Type()) {
+				a.fields = append(a.fields, fieldDecl{sn, f.Name() + "#addwait", "TPlain",
+					"pseudo-location: Add/Go (write) vs Wait (read) ordering of the WaitGroup"})
+			}
 		}
 	}
 	for _, f := range files {
@@ -455,6 +540,15 @@ func declName(pkg *types.Package, fd *ast.FuncDecl, obj *types.Func) string {
 		}
 	}
 	return pkg.Name() + "." + fd.Name.Name
+}
+
+// returnsOption: a plain function whose only result is a functional-option type of a target package.
+func returnsOption(sig *types.Signature) bool {
+	if sig.Results().Len() != 1 {
+		return false
+	}
+	n, ok := types.Unalias(sig.Results().At(0).Type()).(*types.Named)
+	return ok && n.Obj().Name() == "Option" && n.Obj().Pkg() != nil && isTarget(n.Obj().Pkg().Path())
 }
 
 func isCtorName(name string) bool {
@@ -598,9 +692,27 @@ func (a *analyzer) locksFor(st *state, base types.Object) []lockRef {
 }
 
 func (a *analyzer) record(c *fnCtx, st *state, sel *ast.SelectorExpr, kind string) {
+	note := ""
+	if kind == "Wr" {
+		note = a.lhsNote
+	}
+	a.recordN(c, st, sel, kind, note, "")
+}
+
+func sortedCopy(l []string) []string {
+	out := append([]string{}, l...)
+	sort.Strings(out)
+	return out
+}
+
+// recordN: pseudo != "" records the access on the pseudo-field <field>#<pseudo> instead.
+func (a *analyzer) recordN(c *fnCtx, st *state, sel *ast.SelectorExpr, kind, note, pseudo string) {
 	sn, fl, _, ok := a.trackedField(sel)
 	if !ok {
 		return
+	}
+	if pseudo != "" {
+		fl = fl + "#" + pseudo
 	}
 	base := a.baseObj(sel)
 	pre := "PreNone"
@@ -624,6 +736,7 @@ func (a *analyzer) record(c *fnCtx, st *state, sel *ast.SelectorExpr, kind strin
 		Locks:    a.locksFor(st, base),
 		SameRecv: base != nil && base == c.recvObj,
 		Pre:      pre, Ord: c.ords[key],
+		Conds: sortedCopy(st.conds), Note: note,
 		Dbg: fmt.Sprintf("%s:%d", f, line), File: f, Line: line,
 	})
 }
@@ -819,7 +932,7 @@ func (a *analyzer) closure(c *fnCtx, st *state, lit *ast.FuncLit, kind string) {
 			}
 		}
 	}
-	inner := &state{}
+	inner := &state{conds: st.setFacts()}
 	if kind == "go" {
 		// recorded so that Coq can check that a spawned context claims no entry locks
 		a.calls = append(a.calls, callSite{Callee: name, Caller: c.decl.Name, Spawn: true, Dbg: a.dbg(lit.Pos())})
@@ -837,7 +950,7 @@ func (a *analyzer) closure(c *fnCtx, st *state, lit *ast.FuncLit, kind string) {
 		}
 		a.calls = append(a.calls, callSite{Callee: name, Caller: c.decl.Name, Locks: lr,
 			SameRecv: c.recvObj != nil, Spawn: false, Dbg: a.dbg(lit.Pos())})
-		inner = &state{} // the locks are carried by the entry set of the defer context
+		inner = &state{conds: st.setFacts()} // the locks are carried by the entry set of the defer context
 	}
 	a.walkBlock(sub, inner, lit.Body)
 	c.nGo, c.nLit, c.nDefer = sub.nGo, sub.nLit, sub.nDefer
@@ -1023,7 +1136,17 @@ func (a *analyzer) walkSelector(c *fnCtx, st *state, x *ast.SelectorExpr, _ bool
 		// x.X is the receiver; if it is a tracked sync-valued field this is a Use
 		if inner, ok := x.X.(*ast.SelectorExpr); ok {
 			if _, _, fv, tracked := a.trackedField(inner); tracked && isSyncValue(fv.Type()) {
-				a.record(c, st, inner, "Use")
+				a.recordN(c, st, inner, "Use", x.Sel.Name, "")
+				if isWaitGroup(fv.Type()) {
+					// the ordering contract of sync.WaitGroup (Add from zero must happen before Wait),
+					// modelled as the race detector does: Add/Go write, Wait reads a pseudo-location
+					switch x.Sel.Name {
+					case "Add", "Go":
+						a.recordN(c, st, inner, "Wr", x.Sel.Name, "addwait")
+					case "Wait":
+						a.recordN(c, st, inner, "Rd", x.Sel.Name, "addwait")
+					}
+				}
 				a.walkExpr(c, st, inner.X)
 				return
 			}
@@ -1082,6 +1205,95 @@ func (a *analyzer) walkCompositeLit(c *fnCtx, st *state, x *ast.CompositeLit) {
 	}
 }
 
+// canon prints an expression with the receiver variable replaced by "$".
+func (a *analyzer) canon(c *fnCtx, e ast.Expr) string {
+	s := types.ExprString(e)
+	if c.recvObj != nil {
+		s = regexp.MustCompile(`\b`+regexp.QuoteMeta(c.recvObj.Name())+`\.`).ReplaceAllString(s, "$$.")
+	}
+	return s
+}
+
+func unparen(e ast.Expr) ast.Expr {
+	for {
+		p, ok := e.(*ast.ParenExpr)
+		if !ok {
+			return e
+		}
+		e = p.X
+	}
+}
+
+// conjuncts: conditions that hold when e is true.
+func (a *analyzer) conjuncts(c *fnCtx, e ast.Expr) []string {
+	e = unparen(e)
+	switch x := e.(type) {
+	case *ast.BinaryExpr:
+		if x.Op == token.LAND {
+			return append(a.conjuncts(c, x.X), a.conjuncts(c, x.Y)...)
+		}
+	case *ast.UnaryExpr:
+		if x.Op == token.NOT {
+			return a.negation(c, x.X)
+		}
+	}
+	return []string{a.canon(c, e)}
+}
+
+// negation: conditions that hold when e is false.
+func (a *analyzer) negation(c *fnCtx, e ast.Expr) []string {
+	e = unparen(e)
+	switch x := e.(type) {
+	case *ast.BinaryExpr:
+		switch x.Op {
+		case token.LOR:
+			return append(a.negation(c, x.X), a.negation(c, x.Y)...)
+		case token.EQL:
+			return []string{a.canon(c, x.X) + " != " + a.canon(c, x.Y)}
+		case token.NEQ:
+			return []string{a.canon(c, x.X) + " == " + a.canon(c, x.Y)}
+		}
+		return []string{"!(" + a.canon(c, e) + ")"}
+	case *ast.UnaryExpr:
+		if x.Op == token.NOT {
+			return a.conjuncts(c, x.X)
+		}
+	case *ast.Ident, *ast.SelectorExpr, *ast.CallExpr:
+		return []string{"!" + a.canon(c, e)}
+	}
+	return []string{"!(" + a.canon(c, e) + ")"}
+}
+
+// noteAssign updates the condition set after `lhs = rhs` (rhs may be nil).
+func (a *analyzer) noteAssign(c *fnCtx, st *state, lhs, rhs ast.Expr) {
+	sel, ok := unparen(lhs).(*ast.SelectorExpr)
+	if !ok {
+		return
+	}
+	if _, _, _, tracked := a.trackedField(sel); !tracked {
+		return
+	}
+	x := a.canon(c, sel)
+	st.dropConds(x)
+	var keep []string
+	for _, k := range st.conds {
+		if k != "set:"+x {
+			keep = append(keep, k)
+		}
+	}
+	st.conds = keep
+	if id, isId := rhs.(*ast.Ident); isId && id.Name == "true" {
+		st.addConds([]string{"set:" + x})
+	}
+}
+
+func constNote(e ast.Expr) string {
+	if id, ok := e.(*ast.Ident); ok && (id.Name == "true" || id.Name == "false") {
+		return "=" + id.Name
+	}
+	return ""
+}
+
 func (a *analyzer) walkBlock(c *fnCtx, st *state, b *ast.BlockStmt) bool {
 	if b == nil {
 		return false
@@ -1114,6 +1326,7 @@ func merge(st *state, conts []*state) {
 		r = intersect(r, o)
 	}
 	st.held = r.held
+	st.conds = r.conds
 }
 
 // walkStmt returns true if control does not continue past the statement.
@@ -1124,6 +1337,7 @@ func (a *analyzer) walkStmt(c *fnCtx, st *state, s ast.Stmt) bool {
 		if call, ok := x.X.(*ast.CallExpr); ok {
 			if op, obj, name, isLock := a.lockOp(call); isLock {
 				a.walkExpr(c, st, x.X) // the Use of the mutex field itself
+				st.dropConds("")       // what was observed under another lock state is stale
 				switch op {
 				case "Lock":
 					st.add(heldLock{obj: obj, name: name, mode: "Ex"})
@@ -1145,12 +1359,27 @@ func (a *analyzer) walkStmt(c *fnCtx, st *state, s ast.Stmt) bool {
 		a.walkExpr(c, st, x.Value)
 	case *ast.IncDecStmt:
 		a.walkLHS(c, st, x.X)
+		a.noteAssign(c, st, x.X, nil)
 	case *ast.AssignStmt:
 		for _, r := range x.Rhs {
 			a.walkExpr(c, st, r)
 		}
 		for i, l := range x.Lhs {
+			a.lhsNote = ""
+			var rhs ast.Expr
+			if len(x.Lhs) == len(x.Rhs) {
+				rhs = x.Rhs[i]
+				if x.Tok == token.ASSIGN {
+					a.lhsNote = constNote(rhs)
+				}
+			}
 			a.walkLHS(c, st, l)
+			a.lhsNote = ""
+			if x.Tok == token.ASSIGN {
+				a.noteAssign(c, st, l, rhs)
+			} else {
+				a.noteAssign(c, st, l, nil)
+			}
 			// x := &T{...} / T{...} / new(T) inside a constructor: x is the value under construction
 			if c.ctor && x.Tok == token.DEFINE && len(x.Lhs) == len(x.Rhs) {
 				if id, ok := l.(*ast.Ident); ok && isFreshExpr(x.Rhs[i]) {
@@ -1223,16 +1452,18 @@ func (a *analyzer) walkStmt(c *fnCtx, st *state, s ast.Stmt) bool {
 		a.walkExpr(c, st, x.Cond)
 		var conts []*state
 		thenSt := st.clone()
+		thenSt.addConds(a.conjuncts(c, x.Cond))
 		if !a.walkBlock(c, thenSt, x.Body) {
 			conts = append(conts, thenSt)
 		}
+		elseSt := st.clone()
+		elseSt.addConds(a.negation(c, x.Cond))
 		if x.Else != nil {
-			elseSt := st.clone()
 			if !a.walkStmt(c, elseSt, x.Else) {
 				conts = append(conts, elseSt)
 			}
 		} else {
-			conts = append(conts, st.clone())
+			conts = append(conts, elseSt)
 		}
 		if len(conts) == 0 {
 			return true
@@ -1325,6 +1556,7 @@ func (a *analyzer) loop(c *fnCtx, st *state, body func(in *state) bool, infinite
 	}
 	_ = infinite
 	st.held = res.held
+	st.conds = res.conds
 }
 
 type snap struct {
@@ -1588,6 +1820,7 @@ func main() {
 	module := flag.String("module", "", "module path (default: the go-supervisor module)")
 	pkgs := flag.String("pkgs", "", "comma-separated package directories relative to the module root")
 	structs := flag.String("structs", "", "comma-separated tracked structs, <pkgname>.<Type>")
+	flag.StringVar(&buildTags, "tags", "", "extra build tags for the file selection (default: production files only)")
 	flag.Parse()
 	if *module != "" {
 		modPath = *module
@@ -1621,7 +1854,7 @@ func main() {
 		fd.isTop = true
 		fd.Exported = ast.IsExported(fn.Name())
 		sig := fn.Type().(*types.Signature)
-		fd.Ctor = sig.Recv() == nil && isCtorName(fn.Name())
+		fd.Ctor = sig.Recv() == nil && (isCtorName(fn.Name()) || returnsOption(sig))
 		if a.ifaceCallable(fn) {
 			fd.ValueUsed = true
 		}
@@ -1726,11 +1959,11 @@ func (a *analyzer) emitCoq() string {
 			coqBool(c.Spawn), c.Dbg, sep(i, len(cs)))
 	}
 	sb.WriteString("].\n\n")
-	sb.WriteString("(* mkSite struct field func kind lexical_locks same_receiver prepub ordinal dbg *)\nDefinition sites : list site := [\n")
+	sb.WriteString("(* mkSite struct field func kind lexical_locks same_receiver prepub ordinal conditions note dbg *)\nDefinition sites : list site := [\n")
 	ss := a.sortedSites()
 	for i, s := range ss {
-		fmt.Fprintf(&sb, "  mkSite %q %q %q %s %s %s %s %d %q%s\n", s.Struct, s.Field, s.Func, s.Kind, lockSetString(s.Locks),
-			coqBool(s.SameRecv), s.Pre, s.Ord, s.Dbg, sep(i, len(ss)))
+		fmt.Fprintf(&sb, "  mkSite %q %q %q %s %s %s %s %d %s %q %q%s\n", s.Struct, s.Field, s.Func, s.Kind, lockSetString(s.Locks),
+			coqBool(s.SameRecv), s.Pre, s.Ord, strList(s.Conds), s.Note, s.Dbg, sep(i, len(ss)))
 	}
 	sb.WriteString("].\n\n")
 	sb.WriteString("(* functions in which a value of a functional-option type is applied; the bool says whether it is a constructor *)\n")
@@ -1740,6 +1973,19 @@ func (a *analyzer) emitCoq() string {
 	}
 	sb.WriteString("].\n\n")
 	sb.WriteString("Definition table : access_table := mkTable fields funcs calls sites option_applies.\n")
+	return sb.String()
+}
+
+func strList(l []string) string {
+	var sb strings.Builder
+	sb.WriteString("[")
+	for i, x := range l {
+		if i > 0 {
+			sb.WriteString("; ")
+		}
+		sb.WriteString("\"" + strings.ReplaceAll(x, "\"", "\"\"") + "\"")
+	}
+	sb.WriteString("]")
 	return sb.String()
 }
 
